@@ -759,6 +759,16 @@ def blocking_shapes():
         [L("read", "l"), L("send", "c1", v=1), join(3), L("unlockr", "l")], [L("read", "l"), L("unlockr", "l")]))
     A(P("reader-joins-tryreader", [spawn(3), spawn(2), L("recv", "c1"), join(2), L("droprx", "c1")],
         [L("read", "l"), L("send", "c1", v=1), join(3), L("unlockr", "l")], [L("tryread", "l"), br(1, 1, 1), L("unlockr", "l")]))
+    # two threads really waiting on one condvar (a counter under the mutex tells), two notify_one: both are released
+    WT = [L("lock", "m"), fadd("n", 1, "rel"), L("cvwait", "cv", o2="m"), L("unlock", "m")]
+    A(P("cv-two-waiters-two-notify-one", [spawn(2), spawn(3), await_("n", "acq", v=2), L("lock", "m"), L("unlock", "m"), L("notify1", "cv"), L("notify1", "cv"), join(2), join(3)],
+        list(WT), list(WT)))
+    A(P("cv-two-waiters-notify-all", [spawn(2), spawn(3), await_("n", "acq", v=2), L("lock", "m"), L("unlock", "m"), L("notifyall", "cv"), join(2), join(3)],
+        list(WT), list(WT)))
+    A(P("cv-two-waiters-one-notify-deadlocks", [spawn(2), spawn(3), await_("n", "acq", v=2), L("lock", "m"), L("unlock", "m"), L("notify1", "cv"), join(2), join(3)],
+        list(WT), list(WT)))
+    A(P("cv-three-waiters-three-notify-one", [spawn(2), spawn(3), spawn(4), await_("n", "acq", v=3), L("lock", "m"), L("unlock", "m"), L("notify1", "cv"), L("notify1", "cv"),
+                                             L("notify1", "cv"), join(2), join(3), join(4)], list(WT), list(WT), list(WT)))
     A(P("recv-nosender", [spawn(2), L("recv", "ch"), join(2)], [ld("x")]))
     A(P("recv-sender", [spawn(2), L("recv", "ch"), join(2), L("droprx", "ch")], [L("send", "ch", v=1)]))
     A(P("recv-2-of-1", [spawn(2), L("recv", "ch"), L("recv", "ch"), join(2)], [L("send", "ch", v=1)]))
@@ -916,6 +926,17 @@ def wait_shapes():
     A = out.append
     # hand-over of prior writes through each wake-up
     A(P("cv-handover", SJ(2) + JJ(2), CS("m", L("cvwait", "cv", o2="m"), rd("c")), [wr("c")] + CS("m", L("notify1", "cv"))))
+    # the notifier writes AFTER its last unlock and before the notification: only the wake-up itself orders it before the waiter
+    # (main holds the mutex while it spawns the notifier and lets go only inside wait: the wake-up cannot be lost)
+    for nf in ("notify1", "notifyall"):
+        A(P(f"cv-wake-edge[{nf}]", [L("lock", "m"), spawn(2), L("cvwait", "cv", o2="m"), rd("c"), L("unlock", "m"), join(2)],
+            CS("m") + [wr("c"), L(nf, "cv")]))
+        A(P(f"cv-wake-edge-atomic[{nf}]", [L("lock", "m"), spawn(2), L("cvwait", "cv", o2="m"), ld("x"), L("unlock", "m"), join(2)],
+            CS("m") + [st("x", 1), L(nf, "cv")]))
+    A(P("cv-wake-edge-all-two-waiters", [spawn(2), spawn(3), spawn(4), join(2), join(3), join(4)],
+        [L("lock", "m"), fadd("n", 1, "rel"), L("cvwait", "cv", o2="m"), rd("c"), L("unlock", "m")],
+        [L("lock", "m"), fadd("n", 1, "rel"), L("cvwait", "cv", o2="m"), rd("c"), L("unlock", "m")],
+        [await_("n", "acq", v=2)] + CS("m") + [wr("c"), L("notifyall", "cv")]))
     A(P("cv-handover-in-cs", SJ(2) + JJ(2), CS("m", L("cvwait", "cv", o2="m"), rd("c")), CS("m", wr("c"), L("notify1", "cv"))))
     A(P("notify-handover", [spawn(2), wr("c"), L("notify", "nt"), join(2)], [L("nwait", "nt"), rd("c")]))
     # a notification that arrives while the future waiter is still on its way into wait() (it holds the mutex, it is
@@ -976,6 +997,16 @@ def chan_shapes():
     A(P("leftover-drained", [spawn(2), L("recv", "ch"), join(2), L("droprx", "ch")], [L("send", "ch", v=1), L("send", "ch", v=2)]))
     A(P("recv-more-than-sent", [spawn(2), L("recv", "ch"), L("recv", "ch"), join(2)], [L("send", "ch", v=1)]))
     A(P("hb-send-recv", [spawn(2), L("recv", "ch"), rd("c"), join(2), L("droprx", "ch")], [wr("c"), L("send", "ch", v=1)]))
+    # the message is received while ANOTHER one is still queued (a relaxed counter tells the receiver that both were sent;
+    # it carries no ordering): every receive acquires its own message's send, whatever else is in the queue
+    A(P("hb-recv-with-more-queued", [spawn(2), await_("n", "rlx", v=1), L("recv", "ch"), rd("c"), L("recv", "ch"), join(2), L("droprx", "ch")],
+        [wr("c"), L("send", "ch", v=1), L("send", "ch", v=2), fadd("n", 1)]))
+    A(P("hb-recv-with-more-queued-2", [spawn(2), await_("n", "rlx", v=1), L("recv", "ch"), L("recv", "ch"), rd("c"), rd("d"), join(2), L("droprx", "ch")],
+        [wr("c"), L("send", "ch", v=1), wr("d"), L("send", "ch", v=2), fadd("n", 1)]))
+    A(P("hb-tryrecv-with-more-queued", [spawn(2), await_("n", "rlx", v=1), L("tryrecv", "ch"), rd("c"), join(2), L("droprx", "ch")],
+        [wr("c"), L("send", "ch", v=1), L("send", "ch", v=2), fadd("n", 1)]))
+    A(P("hb-recv-atomic-with-more-queued", [spawn(2), spawn(3), await_("n", "rlx", v=2), L("recv", "ch"), L("recv", "ch"), ld("x"), ld("y"), join(2), join(3), L("droprx", "ch")],
+        [st("x", 1), L("send", "ch", v=1), fadd("n", 1)], [st("y", 1), L("send", "ch", v=2), fadd("n", 1)]))
     A(P("hb-later-recv", [spawn(2), spawn(3), L("recv", "ch"), L("recv", "ch"), rd("c"), rd("d"), join(2), join(3), L("droprx", "ch")],
         [wr("c"), L("send", "ch", v=1)], [wr("d"), L("send", "ch", v=2)]))
     A(P("receiver-in-thread", [spawn(2), spawn(3), join(2), join(3)], [L("recv", "ch"), L("recv", "ch"), L("droprx", "ch")],
